@@ -30,6 +30,7 @@ Gids13 == {1, 3}
 Gids123 == {1, 2, 3}
 OpsN == {"N"}
 OpsNH == {"N", "H"}
+GeomsOne      == <<Mps3>>
 GeomsSwap     == <<Mps4>>
 GeomsMpo      == <<Mpo3>>
 =============================================================================
